@@ -128,10 +128,7 @@ theorem bcast_guarded (sl : Nat → Cell) : ∀ (ds : Shapes) (kd : Kind) (n k :
     have hr := fun kd' => bcast_guarded sl ds kd' n (k + 1 + cells d) hs hw.2
     cases kd <;> simp only [bcast]
     · exact GuardedK.append (GuardedK.sect (hd .next)) (hr .next)
-    · exact GuardedK.append
-        (GuardedK.append (GuardedK.append (GuardedK.sect (hd .fin)) (gk_sect_nil _ _ _))
-          (GuardedK.sect (hd .term)))
-        (hr .term)
+    · exact GuardedK.append (GuardedK.sect (hd .term)) (hr .term)
     · exact GuardedK.append (GuardedK.append (GuardedK.sect (hd .fin)) (gk_sect_nil _ _ _))
         (hr .fin)
 end
